@@ -28,7 +28,7 @@ fn step_str(r: Result<bool, AxError>) -> String {
     match r {
         Ok(true) => "ok 1".into(),
         Ok(false) => "ok 0".into(),
-        Err(_) => "err".into(),
+        Err(e) => err_out(&e),
     }
 }
 use std::io::{BufRead, Write};
@@ -54,10 +54,21 @@ pub fn fnv64(b: &[u8]) -> u64 {
     h
 }
 
-fn res_unit<E>(r: Result<(), E>) -> String {
+/// with `errtext on` every error line carries a hash of the error's text (C20 compares texts between runs)
+pub static ERRTEXT: std::sync::atomic::AtomicBool = std::sync::atomic::AtomicBool::new(false);
+
+pub fn err_out<E: std::fmt::Display>(e: &E) -> String {
+    if ERRTEXT.load(std::sync::atomic::Ordering::Relaxed) {
+        format!("err msg={:016x}", fnv64(format!("{}", e).as_bytes()))
+    } else {
+        "err".into()
+    }
+}
+
+fn res_unit<E: std::fmt::Display>(r: Result<(), E>) -> String {
     match r {
         Ok(()) => "ok".into(),
-        Err(_) => "err".into(),
+        Err(e) => err_out(&e),
     }
 }
 
@@ -77,7 +88,7 @@ impl Session {
                 self.ax = Some(ax);
                 "ok".into()
             }
-            Err(_) => "err".into(),
+            Err(e) => err_out(&e),
         }
     }
 
@@ -94,6 +105,10 @@ impl Session {
     fn dispatch(&mut self, ws: &[&str]) -> Option<String> {
         match ws {
             ["new"] => Some(self.do_new(&[0x90], 0x1000, 0x1000)),
+            ["errtext", v] => {
+                ERRTEXT.store(*v == "on", std::sync::atomic::Ordering::Relaxed);
+                Some("-".into())
+            }
             ["new", code, start, rip] => {
                 let code = unhex(code)?;
                 let start = parse_hex(start)?;
@@ -138,14 +153,14 @@ impl Session {
                 };
                 Some(match res {
                     Ok(v) => format!("ok {:x}", v),
-                    Err(_) => "err".into(),
+                    Err(e) => err_out(&e),
                 })
             }
             ["mrb", a, n] => {
                 let (a, n) = (parse_hex(a)?, parse_hex(n)?);
                 Some(match self.ax().mem_read_bytes(a, n) {
                     Ok(b) => format!("ok {}", hex(&b)),
-                    Err(_) => "err".into(),
+                    Err(e) => err_out(&e),
                 })
             }
             ["mwb", a, d] => {
@@ -165,7 +180,7 @@ impl Session {
                 };
                 Some(match r {
                     Ok(v) => format!("ok {:x}", v),
-                    Err(_) => "err".into(),
+                    Err(e) => err_out(&e),
                 })
             }
             ["mw", n, a, v] => {
@@ -188,7 +203,7 @@ impl Session {
                 let a = parse_hex(a)?;
                 Some(match self.ax().verif_fetch_bytes(a) {
                     Ok(b) => format!("ok {}", hex(&b)),
-                    Err(_) => "err".into(),
+                    Err(e) => err_out(&e),
                 })
             }
             ["area", s, d, nm] => {
@@ -219,14 +234,14 @@ impl Session {
                 let n = parse_hex(n)?;
                 Some(match self.ax().mem_init_zero_anywhere(n) {
                     Ok(a) => format!("ok {:x}", a),
-                    Err(_) => "err".into(),
+                    Err(e) => err_out(&e),
                 })
             }
             ["any", d, nm] => {
                 let d = unhex(d)?;
                 Some(match self.ax().mem_init_anywhere(d, name_opt(nm)) {
                     Ok(a) => format!("ok {:x}", a),
-                    Err(_) => "err".into(),
+                    Err(e) => err_out(&e),
                 })
             }
             ["areas"] => {
@@ -267,7 +282,7 @@ impl Session {
             }
             ["execute", _fuel] => Some(match block_on(self.ax().execute()) {
                 Ok(()) => "ok".into(),
-                Err(_) => "err".into(),
+                Err(e) => err_out(&e),
             }),
             ["maxinstr", n] => {
                 let n = parse_hex(n)?;
@@ -420,7 +435,7 @@ impl Session {
                 let n = parse_hex(n)?;
                 Some(match self.ax().init_stack(n) {
                     Ok(a) => format!("ok {:x}", a),
-                    Err(_) => "err".into(),
+                    Err(e) => err_out(&e),
                 })
             }
             ["stackps", n, argv, envp] => {
@@ -434,7 +449,7 @@ impl Session {
                 let (argv, envp) = (conv(argv)?, conv(envp)?);
                 Some(match self.ax().init_stack_program_start(n, argv, envp) {
                     Ok(a) => format!("ok {:x}", a),
-                    Err(_) => "err".into(),
+                    Err(e) => err_out(&e),
                 })
             }
             ["ldreg", r, a] => {
@@ -446,7 +461,7 @@ impl Session {
                         ax.reg_write_64(r, v).ok()?;
                         format!("ok {:x}", v)
                     }
-                    Err(_) => "err".into(),
+                    Err(e) => err_out(&e),
                 })
             }
             ["sys"] => {
